@@ -557,7 +557,9 @@ class Result:
                 correspondence_disagreements=len(self.disagreements),
                 **({"coqchk": gate["coqchk"]} if gate.get("coqchk") else {}),
                 **({"source_constants_tied": gate["src_consts"]} if gate.get("src_consts") else {}),
-                **({"source_codecs_tied": gate["src_codecs"]} if gate.get("src_codecs") and self.prop == "C11" else {}),
+                **({"source_codecs_tied": [c for c in gate["src_codecs"]
+                                            if c.get("group", "wire") == {"C11": "wire", "C06": "oplog"}[self.prop]]}
+                   if gate.get("src_codecs") and self.prop in ("C11", "C06") else {}),
                 **self.extra),
             assumptions=[level_text] + self.notes,
             wall_s=round(time.time() - self.t0, 2),
